@@ -98,7 +98,12 @@ class Sim(object):
             for k, v in op['pairs']:
                 payload[k] = v
                 self.pairs.append([k, Y.pair_text(v)])
-            call(self.obj.append, payload, what='append')
+            nothing = not op['pairs'] and not any(it['rows'] for it in op['items'])
+            with warnings.catch_warnings(record=True) as w:
+                warnings.simplefilter('always')
+                call(self.obj.append, payload, what='append')
+            warned = any(issubclass(x.category, PydlutilsUserWarning) for x in w)
+            check(warned == nothing, 'append-nothing-warning-wrong', lambda: dict(warned=warned, nothing_to_append=nothing))
             grew = self.fn
             self.labels.add('append')
         elif kind == 'append_empty':
@@ -109,7 +114,10 @@ class Sim(object):
             self.labels.add('empty')
         elif kind == 'write_copy':
             fn = self.newname()
-            call(self.obj.write, fn, what='write-copy')
+            if op.get('comments') is None:
+                call(self.obj.write, fn, what='write-copy')
+            else:
+                call(self.obj.write, fn, comments=op['comments'], what='write-copy')
             self.fn = fn
             grew = fn
             self.labels.add('copy')
@@ -228,6 +236,10 @@ def classify(case):
                 out.append('append-with-pairs')
         if o['op'] == 'write_over':
             out.append('write-over:' + o['target'])
+        if o['op'] == 'write_copy' and isinstance(o.get('comments'), list):
+            out.append('copy-with-comment-list')
+        if o['op'] == 'append' and any(not it['rows'] for it in o['items']) and any(it['rows'] for it in o['items']):
+            out.append('append-with-empty-table-entry')
         if o['op'] == 'append_missing' and o.get('adopt'):
             out.append('refused-object-adopted')
         if o['op'] == 'create_text' and any(c['kind'] == 'V' for t in o['tables'] for c in t['cols']):
@@ -312,7 +324,7 @@ def make_machine(raw):
                 nt = len(self.sim.tables)
                 for ti in data.draw(st.lists(st.integers(0, nt - 1), min_size=1, max_size=nt, unique=True)):
                     t = self.sim.tables[ti]
-                    nr = data.draw(st.integers(1, 2))
+                    nr = data.draw(st.sampled_from([1, 2, 1, 0]))      # 0: the table is named in the request but gets no rows
                     rows = [[data.draw(Y.cell_strategy(c)) for c in t['cols']] for _ in range(nr)]
                     Y.fix_last_column([dict(cols=t['cols'], rows=rows)])
                     items.append(dict(table=ti, case=data.draw(st.sampled_from(['upper', 'lower'])),
@@ -332,9 +344,9 @@ def make_machine(raw):
             def append_empty(self):
                 self.step(dict(op='append_empty'))
 
-            @rule()
-            def write_copy(self):
-                self.step(dict(op='write_copy'))
+            @rule(comments=st.sampled_from([None, None, 'one line', '# already marked', ['first', 'second'], ['single']]))
+            def write_copy(self, comments):
+                self.step(dict(op='write_copy', comments=comments))
 
             @rule(tgt=st.sampled_from(['self', 'self', 'other']), which=st.integers(0, 5), implicit=st.booleans())
             def write_over(self, tgt, which, implicit):
